@@ -86,21 +86,23 @@ def targets():
         mk('mad_imu_a0', Q + G + DT, lambda A, v: F(A).Madgwick().updateIMU(q(v), g(v), _z(), dt=v.dt)),
         mk('mad_marg_a0', Q + G + M + DT, lambda A, v: F(A).Madgwick().updateMARG(q(v), g(v), _z(), m(v), dt=v.dt)),
         mk('mad_marg_am0', Q + G + DT, lambda A, v: F(A).Madgwick().updateMARG(q(v), g(v), _z(), _z(), dt=v.dt)),
-        mk('mad_marg_m0', Q + G + AC + DT, lambda A, v: F(A).Madgwick().updateMARG(q(v), g(v), a(v), _z(), dt=v.dt),
-           'mag dropout: delegates to updateIMU (at the filter\'s own Dt)'),
-        mk('mad_imu', Q + G + AC, lambda A, v: F(A).Madgwick().updateIMU(q(v), g(v), a(v)), 'reference: valid IMU step at Dt'),
+        mk('mad_marg_m0', Q + G + AC + DT, lambda A, v: (lambda f: [f.updateMARG(q(v), g(v), a(v), _z(), dt=v.dt),
+                                                                    f.updateIMU(A.Quaternion(q(v)), g(v), a(v))])(F(A).Madgwick()),
+           'mag dropout, acc valid: [updateMARG(q,gyr,acc,0,dt), updateIMU(Quaternion(q),gyr,acc)] (8 numbers)'),
         # Mahony (with the carried gyro bias)
         mk('mah_imu_a0', Q + G + BB + DT, lambda A, v: (lambda f: mo(f, f.updateIMU(q(v), g(v), _z(), dt=v.dt)))(mah(A, v))),
         mk('mah_marg_a0', Q + G + M + BB + DT, lambda A, v: (lambda f: mo(f, f.updateMARG(q(v), g(v), _z(), m(v), dt=v.dt)))(mah(A, v))),
         mk('mah_marg_am0', Q + G + BB + DT, lambda A, v: (lambda f: mo(f, f.updateMARG(q(v), g(v), _z(), _z(), dt=v.dt)))(mah(A, v))),
-        mk('mah_marg_m0', Q + G + AC + BB + DT, lambda A, v: (lambda f: mo(f, f.updateMARG(q(v), g(v), a(v), _z(), dt=v.dt)))(mah(A, v))),
-        mk('mah_imu', Q + G + AC + BB, lambda A, v: (lambda f: mo(f, f.updateIMU(q(v), g(v), a(v))))(mah(A, v))),
+        mk('mah_marg_m0', Q + G + AC + BB + DT, lambda A, v: [(lambda f: mo(f, f.updateMARG(q(v), g(v), a(v), _z(), dt=v.dt)))(mah(A, v)),
+                                                              (lambda f: mo(f, f.updateIMU(A.Quaternion(q(v)), g(v), a(v))))(mah(A, v))],
+           'mag dropout, acc valid: [updateMARG(..,0,dt) + bias, updateIMU(Quaternion(q),..) + bias] on two fresh filters (14 numbers)'),
         # AQUA
         mk('aqua_imu_a0', Q + G + DT, lambda A, v: F(A).AQUA().updateIMU(q(v), g(v), _z(), dt=v.dt)),
         mk('aqua_marg_a0', Q + G + M + DT, lambda A, v: F(A).AQUA().updateMARG(q(v), g(v), _z(), m(v), dt=v.dt)),
         mk('aqua_marg_am0', Q + G + DT, lambda A, v: F(A).AQUA().updateMARG(q(v), g(v), _z(), _z(), dt=v.dt)),
-        mk('aqua_marg_m0', Q + G + AC + DT, lambda A, v: F(A).AQUA().updateMARG(q(v), g(v), a(v), _z(), dt=v.dt)),
-        mk('aqua_imu', Q + G + AC + DT, lambda A, v: F(A).AQUA().updateIMU(q(v), g(v), a(v), dt=v.dt)),
+        mk('aqua_marg_m0', Q + G + AC + DT, lambda A, v: (lambda f: [f.updateMARG(q(v), g(v), a(v), _z(), dt=v.dt),
+                                                                     f.updateIMU(q(v), g(v), a(v), dt=v.dt)])(F(A).AQUA()),
+           'mag dropout, acc valid: [updateMARG(q,gyr,acc,0,dt), updateIMU(q,gyr,acc,dt)] (8 numbers)'),
         # Fourati
         mk('fou_a0', Q + G + M + DT, lambda A, v: F(A).Fourati().update(q(v), g(v), _z(), m(v), dt=v.dt)),
         mk('fou_m0', Q + G + AC + DT, lambda A, v: F(A).Fourati().update(q(v), g(v), a(v), _z(), dt=v.dt)),
